@@ -722,7 +722,12 @@ class _LoopCtl(Exception):
         self.kind = kind
 
 
-def mini_exec(fn: ast.FunctionDef, args: Dict[str, object], budget: int = 2000):
+class SampleObj(dict):
+    """A sample object for mini_exec: attributes are the dict's entries."""
+    __hash__ = object.__hash__
+
+
+def mini_exec(fn: ast.FunctionDef, args: Dict[str, object], budget: int = 2000, methods: Optional[Dict[str, ast.FunctionDef]] = None, _depth: int = 0):
     """Runs a small, side-effect-free function of the analysed program on *sample* arguments with the analyser's own
     interpreter (assignments to names, if / for / while-free loops over lists and ranges, return, and the expression forms
     of _PathEval plus range / min / max / zip / enumerate / all / any).  Anything else raises _PathEval.Unknown."""
@@ -731,6 +736,35 @@ def mini_exec(fn: ast.FunctionDef, args: Dict[str, object], budget: int = 2000):
     steps = [0]
 
     def ev(e):
+        if isinstance(e, ast.Attribute):
+            try:
+                base = ev(e.value)
+            except _PathEval.Unknown:
+                base = None
+            if isinstance(base, SampleObj):
+                if e.attr not in base:
+                    raise _PathEval.Unknown(f"attribute {e.attr} of a sample object")
+                return base[e.attr]
+        if isinstance(e, ast.Call) and isinstance(e.func, ast.Attribute) and methods and e.func.attr in methods and _depth < 12:
+            try:
+                recv = ev(e.func.value)
+            except _PathEval.Unknown:
+                recv = None
+            if isinstance(recv, SampleObj):
+                m = methods[e.func.attr]
+                ps = [a.arg for a in m.args.args]
+                call_args = {ps[0]: recv}
+                for pn, ax in zip(ps[1:], e.args):
+                    call_args[pn] = ev(ax)
+                for k in e.keywords:
+                    if k.arg:
+                        call_args[k.arg] = ev(k.value)
+                return mini_exec(m, call_args, budget, methods, _depth + 1)
+        if isinstance(e, ast.Call) and isinstance(e.func, ast.Attribute) and e.func.attr == "join" and len(e.args) == 1:
+            sep, items = ev(e.func.value), ev(e.args[0])
+            if isinstance(sep, str) and isinstance(items, list) and all(isinstance(x, str) for x in items):
+                return sep.join(items)
+            raise _PathEval.Unknown("join of non-strings")
         if isinstance(e, ast.Call) and isinstance(e.func, ast.Name) and e.func.id in ("range", "min", "max", "zip", "enumerate", "all", "any", "len", "list", "tuple", "bool", "sorted", "reversed"):
             vals = [ev(a_) for a_ in e.args]
             f_ = {"range": range, "min": min, "max": max, "zip": zip, "enumerate": enumerate, "all": all, "any": any, "len": len, "list": list,
